@@ -32,13 +32,18 @@ Section M.
 
   Definition radians (a : T) : T := div (mul a pi_) (ofZ 180).
 
+  (** _get_starting_z_offset: one entrance-pupil diameter in front of the leftmost surface AND of the entrance
+      pupil:  EPD - min(np.min(positions[1:-1]), EPL)  (Python's min(a, b) is b only when b < a) *)
+  Definition lc_offset (c : launchcfg) : T :=
+    sub (lc_EPD c) (if ltb_ (lc_EPL c) (lc_minpos c) then lc_EPL c else lc_minpos c).
+
   (** _get_ray_origins; [vx' vy'] are 1 - vignetting factor.  None = the code raises *)
   Definition ray_origins (c : launchcfg) (Hx Hy Px Py vx' vy' : T) : option (T * T * T) :=
     let field_x := mul (lc_maxfield c) Hx in
     let field_y := mul (lc_maxfield c) Hy in
     if lc_infinite c then
       if lc_angle c then
-        let offset := sub (lc_EPD c) (lc_minpos c) in
+        let offset := lc_offset c in
         let x := mul (tan_ (radians field_x)) (add offset (lc_EPL c)) in
         let y := mul (neg (tan_ (radians field_y))) (add offset (lc_EPL c)) in
         let z := sub (lc_pos1 c) offset in
